@@ -902,7 +902,7 @@ func (w *world) exec1(line string) {
 		// fsrmdir <hex rel>: a directory of the world removed with everything in it (a tidy-up step between two
 		// calls, a regenerate-golden-files script)
 		os.RemoveAll(w.abs(unhx(tok[1])))
-		fmt.Fprintln(w.ann, line)
+		fmt.Fprintf(w.ann, "fsrmdir %s\n", hx(w.abs(unhx(tok[1]))))
 		fmt.Fprintln(w.out, "fsrmdir ok")
 	case "mode":
 		ci, upd := tok[1] == "1", unhx(tok[2])
